@@ -6,7 +6,7 @@
 From Coq Require Import List NArith ZArith Bool Lia Arith.
 From GmsmVerif Require Import Lib.Outcome EC.ECAffine EC.SM2Curve SM3.SM3Spec
      SM2.SM2Bytes SM2.SM2BytesProofs SM2.SM2Spec SM2.DER SM2.SM2Model SM2.SM2SignProofs SM2.SM2GroupMin
-     SM2.SM2EncProofs SM2.SM2KxProofs SM2.SM2Unconditional.
+     SM2.SM2EncProofs SM2.SM2KxProofs SM2.SM2Unconditional SM2.SM2KxExample.
 From GmsmVerif Require Import SM2.SM2ParamsTie Gen.SM2Params Gen.SM2SigParams.
 Import ListNotations.
 Open Scope Z_scope.
@@ -128,3 +128,13 @@ Example C13_reject_example :
   sm2_valid (Some (sm2_Gx, sm2_Gy + 1)) = false /\ sm2_valid (Some (0, 0)) = false /\
   sm2_valid (Some (ScalarBaseMult 2)) = true /\ in256 (Pub (key_of 1)) /\ in256 (Pub (key_of 3)).
 Proof. vm_compute. repeat split; try reflexivity; try discriminate; eexists; reflexivity. Qed.
+
+(* a COMPLETED exchange evaluated in Coq on the model (long-term scalars 1 and 2, ephemerals 3 and 4, identities
+   "Alice" / "Bob", 16-byte key): both roles return the same (K, S1, S2).  The evaluation (two 128-bit and one 256-bit
+   scalar multiplication per side, about two minutes under vm_compute) lives in SM2/SM2KxExample.v, compiled once. *)
+Example C13_completed_exchange_example :
+  exists K S1 S2,
+    KeyExchangeA 16 [65; 108; 105; 99; 101]%N [66; 111; 98]%N (key_of 1) (ScalarBaseMult 2) (key_of 3) (ScalarBaseMult 4) = Ok (K, S1, S2) /\
+    KeyExchangeB 16 [65; 108; 105; 99; 101]%N [66; 111; 98]%N (key_of 2) (ScalarBaseMult 1) (key_of 4) (ScalarBaseMult 3) = Ok (K, S1, S2) /\
+    length K = 16%nat /\ length S1 = 32%nat /\ length S2 = 32%nat.
+Proof. exact kx_completed_exchange. Qed.
